@@ -377,3 +377,106 @@ func errutilFacts(lf *leanFile) {
 	}
 	lf.def("errBodyLimit", "String", leanStr(limit))
 }
+
+// extractDirFacts: the calls extractTarDirectory makes, per entry type and before the switch,
+// the condition under which it applies a mode, and the link test in resolveRelToBase's walk.
+func extractDirFacts(lf *leanFile) {
+	callsIn := func(n ast.Node) []string {
+		var out []string
+		ast.Inspect(n, func(m ast.Node) bool {
+			if ce, ok := m.(*ast.CallExpr); ok {
+				name := exprString(ce.Fun)
+				switch name {
+				case "os.Lstat", "os.Remove", "writeFile", "os.MkdirAll", "ensureLinkPath", "os.Link", "os.Symlink", "resolveRelToBase", "os.Chmod", "os.Chtimes":
+					out = append(out, name)
+				}
+			}
+			return true
+		})
+		return out
+	}
+	var rows []string
+	var prelude []string
+	chmodGuard := ""
+	if fd := funcDecl("content/file/utils.go", "", "extractTarDirectory"); fd == nil {
+		miss("content/file/utils.go:extractTarDirectory")
+	} else {
+		ast.Inspect(fd.Body, func(n ast.Node) bool {
+			switch x := n.(type) {
+			case *ast.SwitchStmt:
+				if exprString(x.Tag) != "header.Typeflag" {
+					return true
+				}
+				for _, c := range x.Body.List {
+					cc := c.(*ast.CaseClause)
+					label := "default"
+					if len(cc.List) > 0 {
+						label = exprString(cc.List[0])
+					}
+					var calls []string
+					for _, st := range cc.Body {
+						calls = append(calls, callsIn(st)...)
+					}
+					rows = append(rows, fmt.Sprintf("(%s, %s)", leanStr(label), leanStrList(calls)))
+				}
+				return false
+			case *ast.AssignStmt:
+				if len(rows) == 0 {
+					prelude = append(prelude, callsIn(x)...)
+				}
+			case *ast.IfStmt:
+				if len(rows) > 0 && x.Init == nil {
+					for _, c := range callsIn(x.Body) {
+						if c == "os.Chmod" {
+							chmodGuard = exprString(x.Cond)
+						}
+					}
+				}
+			}
+			return true
+		})
+	}
+	if len(rows) == 0 || chmodGuard == "" {
+		miss("content/file/utils.go:extractTarDirectory switch / chmod")
+	}
+	lf.def("extractCases", "List (String × List String)", "["+strings.Join(rows, ",\n   ")+"]")
+	lf.def("extractPrelude", "List String", leanStrList(prelude))
+	lf.def("extractChmodGuard", "String", leanStr(chmodGuard))
+	// resolveRelToBase: the loop over the ancestors
+	var walk []string
+	if fd := funcDecl("content/file/utils.go", "", "resolveRelToBase"); fd == nil {
+		miss("content/file/utils.go:resolveRelToBase")
+	} else {
+		ast.Inspect(fd.Body, func(n ast.Node) bool {
+			if fs, ok := n.(*ast.ForStmt); ok {
+				walk = append(walk, "for "+exprString(fs.Cond))
+				ast.Inspect(fs.Body, func(m ast.Node) bool {
+					switch y := m.(type) {
+					case *ast.IfStmt:
+						if y.Init != nil {
+							if as, ok := y.Init.(*ast.AssignStmt); ok && len(as.Rhs) == 1 {
+								walk = append(walk, "init "+exprString(as.Rhs[0]))
+							}
+						}
+						walk = append(walk, "if "+exprString(y.Cond))
+					case *ast.ReturnStmt:
+						if len(y.Results) == 2 {
+							walk = append(walk, "return "+exprString(y.Results[1]))
+						}
+					case *ast.AssignStmt:
+						if len(y.Lhs) == 1 && exprString(y.Lhs[0]) == "dir" {
+							walk = append(walk, "dir = "+exprString(y.Rhs[0]))
+						}
+					}
+					return true
+				})
+				return false
+			}
+			return true
+		})
+	}
+	if len(walk) == 0 {
+		miss("content/file/utils.go:resolveRelToBase loop")
+	}
+	lf.def("relToBaseWalk", "List String", leanStrList(walk))
+}
